@@ -13,7 +13,11 @@ ASSUME = ("Decides the named structural clauses on the macro-expanded, type-reso
 CLAIMED = {
  "C02": ("R1 root-link pairing: on every CFG path of every function that links a sexp_gc_var_t node into "
          "ctx->saves, the link stack is empty at each return, a node is unlinked only where linked and never linked twice. "
-         "A sound all-paths decision of this clause (a necessary condition of the property: a dangling or dropped root is "
+         "R5: type rows trace exactly the reference fields, up to the live-slot counter. R3a/R3b: a fresh object is not kept in an unrooted "
+         "local (incl. a reassigned parameter, a rooted local before its registration, a local handed to a parameter its callee reads after "
+         "allocating) across a must-allocate call and used afterwards. R4: the VM publishes its stack top before every call that may allocate. "
+         "R6: object words in bytecode are on the literal list. R7: no collection point sees a traced slot holding a raw C pointer. "
+         "Sound all-paths decisions of these clauses (necessary conditions: a dangling, dropped or missing root is "
          "dereferenced / lost by the next collection), not of schedule-independence as such.",
          "typestate (link-stack) dataflow over the clang CFG, path-sensitive for stable correlated predicates; "
          "table/layout agreement; call-graph may-GC reachability", "3 C02"),
@@ -29,7 +33,9 @@ NA = {
 }
 CLAIMED["C10"] = ("(a) every allocation site's size expression (linear form over constant-evaluated sizes) equals the extent "
     "the sweeper recomputes from the type row and the stored length field; type rows agree with the record layout; "
-    "(b) size-determining length fields are written only on an object allocated earlier in the same function. "
+    "(b) size-determining length fields are written only on an object allocated earlier in the same function; (c) heap segment sizes are "
+    "multiples of the allocation granule; (d) the marker traces exactly the reference fields and, for variable-length types, the live slots "
+    "(stack: top) - over-tracing retains garbage. "
     "Decides the 'exact tiling' precondition (allocator and sweeper agree on every object's extent), not the sweep/coalescing "
     "arithmetic or heap-growth bounds.",
     "table/layout/site agreement (constant-evaluated type table vs ASTRecordLayout vs linear forms of allocation sizes); who-may-write with dominance",
@@ -37,6 +43,7 @@ CLAIMED["C10"] = ("(a) every allocation site's size expression (linear form over
 CLAIMED["C16"] = ("(a) typestate over sexp_gc / sexp_destroy_context: mark*, weak reset, finalize, sweep in that order on every path; "
     "(b) Ephemeron type row: key is the single weak slot, value the one extra slot, neither strongly traced, and a weak-column reader can reach the marker; "
     "(c) every close/fclose of a fileno's descriptor or port stream in any unit (incl. generated stubs) is dominated by the owner's openp test and the store openp=0; one refcount decrement site. "
+    "(d) every reference field of every type is traced, so an owner keeps the descriptor object it owns alive. "
     "Necessary conditions of 'exactly once / only when unreachable'; reachability timing itself is not decided.",
     "typestate over the CFG (phase automaton), table/layout agreement, dominance (guard + flag store dominate release), call-graph reachability",
     "3 C16")
@@ -66,7 +73,9 @@ CLAIMED["C19"] = ("(a) every generated numeric accessor of (scheme bytevector) /
 
 CLAIMED["C15"] = ("(a) kind-set dataflow over sexp_equalp_bound and hash_one: the heap tags equal? compares through a semantic comparator "
     "are disjoint from the tags whose raw trailing bytes hash_one hashes (otherwise equal? values hash differently); (b) both recursions "
-    "pass through a verified depth bound (termination on deep/cyclic data). Necessary conditions of hash/equal? coherence; hash-table "
+    "pass through a verified depth bound (termination on deep/cyclic data); (c) hash_one folds a machine word into the hash only for "
+    "immediates; (d) the C hash-table primitives update the size slot exactly where they link/unlink an entry; (e) sexp_equalp_bound writes "
+    "every recursive result back into its work budget. Necessary conditions of hash/equal? coherence; hash-table "
     "histories are not decided.",
     "sibling agreement by kind-set dataflow probes (tags reaching the semantic-compare returns vs. tags reaching the raw-byte hashing statements); call-graph SCC depth-bound verification",
     "3 C15")
@@ -80,7 +89,8 @@ CLAIMED["C03"] = ("Agreement clauses between the compiler's cooperating parts: (
     "3 C03")
 CLAIMED["C09"] = ("Structural clauses on simplify.c: (a) simplify/usedp walker agreement; (b) kind-set dataflow: the literal replacing a folded "
     "application is built only where the fold result cannot be an exception, and the fold runs through sexp_apply_no_err_handler; "
-    "(c) let-constant propagation is dominated by the not-in-set-variables test. Necessary conditions of 'simplification preserves meaning'; "
+    "(c) let-constant propagation is dominated by the not-in-set-variables test; (d) taint: no value unwrapped from a literal node and no "
+    "result of unchecked fixnum arithmetic reaches an AST slot or the returned AST. Necessary conditions of 'simplification preserves meaning'; "
     "result equality across builds and the 128-bit emulation are not decided.",
     "walker field-set agreement; kind-set dataflow probe at the literal construction; edge-dominance of the guard over the substitution push",
     "3 C09")
@@ -111,7 +121,8 @@ CLAIMED["C05"] = ("Compiler half only: (a) dataflow of the abstract tail flag th
 CLAIMED["C13"] = ("Inventory clause: every variable with static storage in the parsed units is either never written (no store, increment, or "
     "address handed to a parameter through which a callee writes) or listed in an audited table with its allowed writer functions and the "
     "reason it does not couple independent contexts; a new writable global or a new writer is reported. A necessary condition of context "
-    "isolation / race freedom on interpreter state; heap and symbol-table disjointness at run time and libc-internal state are not decided.",
+    "isolation / race freedom on interpreter state. A second audited table covers every call of a libc interface with hidden process-wide "
+    "state (rand/random, strtok, localtime, getenv, strerror ...). Heap and symbol-table disjointness at run time are not decided.",
     "who-may-write inventory over all units: stores and address escapes of globals resolved through one level of callee write summaries and const-ness of external parameters",
     "3 C13")
 
@@ -119,7 +130,9 @@ CLAIMED["C11"] = ("Atomicity by construction: (a) no path in the whole-program c
     "sleep/scheduler primitives reaches a VM entry point or an unresolved indirect call once the collector's finalizer edge is cut - pre-emption "
     "happens only in the VM loop, so these primitives are atomic; (b) the cut is justified on every run: no installed finalizer reaches the VM "
     "or the allocator except the port finalizer's flush, which is confined to the closed-port arms (openp cleared before the flush, tested "
-    "before the custom/string-port arms). A necessary condition of mutual exclusion; lost wake-ups, fairness and schedule independence are not decided.",
+    "before the custom/string-port arms); (c) the Scheme code of (srfi 18) never writes the lock/owner slots itself; (d) every primitive that "
+    "queues the current thread as paused stores its event and waitp fields on every path first. Necessary conditions of mutual exclusion / "
+    "no lost wake-up; fairness and schedule independence are not decided.",
     "whole-program call-graph reachability with function-pointer flow (per struct field / parameter); dominance side conditions justifying the cut edge",
     "3 C11")
 
